@@ -1238,7 +1238,7 @@ func conv(t_dst, t_src types.Type, x value) value {
 			x := x.([]value)
 			b := make([]byte, 0, len(x))
 			for i := range x {
-				b = append(b, x[i].(byte))
+				b = append(b, concrete(x[i]).(byte))
 			}
 			return string(b)
 
@@ -1246,7 +1246,7 @@ func conv(t_dst, t_src types.Type, x value) value {
 			x := x.([]value)
 			r := make([]rune, 0, len(x))
 			for i := range x {
-				r = append(r, x[i].(rune))
+				r = append(r, concrete(x[i]).(rune))
 			}
 			return string(r)
 		}
